@@ -133,7 +133,7 @@ func checkC15(c *Ctx) {
 		src  string
 		line bool
 		term string // what ends a line comment: LF, a lone CR or CRLF
-	}{{"// c", true, "\n"}, {"//c", true, "\n"}, {"// c", true, "\r"}, {"//c", true, "\r\n"}, {"/* c */", false, ""}, {"/*c*/", false, ""}, {"/* c\nc */", false, ""}, {"/**/", false, ""}, {"/* c **/", false, ""}, {"/***/", false, ""}, {"/** c */", false, ""}, {"/** @param x */", false, ""}, {"/* * **** / */", false, ""}}
+	}{{"// c", true, "\n"}, {"//c", true, "\n"}, {"// c", true, "\r"}, {"//c", true, "\r\n"}, {"/* c */", false, ""}, {"/*c*/", false, ""}, {"/* c\nc */", false, ""}, {"/**/", false, ""}, {"/* c **/", false, ""}, {"/***/", false, ""}, {"/** c */", false, ""}, {"/** @param x */", false, ""}, {"/*/ c */", false, ""}, {"/*/*/", false, ""}, {"/*// c //*/", false, ""}, {"/*/ c /*/", false, ""}, {"/* * **** / */", false, ""}}
 	for _, t1 := range pieces {
 		for _, t2 := range pieces {
 			for _, cm := range comments {
